@@ -3,6 +3,7 @@
 # applies the patch to /repo, runs the check, always reverts.
 set -u
 patch=$1; tier=$2; pid=$3; shift 3
+[ -f "${patch%patch.diff}patch.rebased.diff" ] && patch="${patch%patch.diff}patch.rebased.diff"
 cd /repo || exit 9
 if [ -n "$(git status --porcelain --untracked-files=no)" ]; then echo "/repo not clean"; exit 9; fi
 git apply "$patch" || { echo "patch does not apply"; exit 9; }
